@@ -137,18 +137,37 @@ def rule_cache_key(rep: Report, repo: Repo) -> None:
 def rule_cache_alias(rep: Report, repo: Repo) -> None:
     rep.rule('C13.CACHE-ALIAS', 'the snapshot stores fresh containers; the restore hands the parser freshly constructed containers and a '
              'fresh main Macro whose op list is rebuilt from the SNAPSHOTTED list (the cached Macro object is later extended by user files)', 3)
+    def fresh_copy_of(e: ast.AST) -> Optional[str]:
+        """the expression a shallow-copy idiom copies: dict(x) / list(x) / tuple(x) / set(x) / x.copy() / copy.copy(x) / x[:] /
+        {**x} / [*x]; None when e is not a fresh container built from exactly one source."""
+        if isinstance(e, ast.Call) and dotted(e.func) in ('dict', 'list', 'tuple', 'set', 'copy.copy') and len(e.args) == 1 and not e.keywords:
+            return norm(e.args[0])
+        if isinstance(e, ast.Call) and isinstance(e.func, ast.Attribute) and e.func.attr == 'copy' and not e.args and not e.keywords:
+            return norm(e.func.value)
+        if isinstance(e, ast.Subscript) and isinstance(e.slice, ast.Slice) and e.slice.lower is None and e.slice.upper is None and e.slice.step is None:
+            return norm(e.value)
+        if isinstance(e, ast.Dict) and e.keys == [None] and len(e.values) == 1:
+            return norm(e.values[0])
+        if isinstance(e, ast.List) and len(e.elts) == 1 and isinstance(e.elts[0], ast.Starred):
+            return norm(e.elts[0].value)
+        return None
     sn = repo.func(PARSER, '_snapshot_parser_to_cache')
-    val = [norm(s.value) for s in sn.body if isinstance(s, ast.Assign)]
-    rep.check(val == ['(dict(parser.consts), dict(parser.macros), list(parser.macros[INITIAL_MACRO_NAME].ops))'], 'C13.CACHE-ALIAS', 'snapshot', str(val),
-              f'{PARSER}:{sn.lineno}')
+    vals = [s.value for s in sn.body if isinstance(s, ast.Assign)]
+    srcs = [fresh_copy_of(x) for x in vals[0].elts] if len(vals) == 1 and isinstance(vals[0], ast.Tuple) else []
+    rep.check(srcs == ['parser.consts', 'parser.macros', 'parser.macros[INITIAL_MACRO_NAME].ops'], 'C13.CACHE-ALIAS', 'snapshot',
+              str([norm(v) for v in vals]), f'{PARSER}:{sn.lineno}', expected='fresh copies of consts, macros and the main macro\'s op list')
     rs = repo.func(PARSER, '_restore_parser_from_cache')
-    assigns = {norm(s.targets[0]): norm(s.value) for s in rs.body if isinstance(s, ast.Assign)}
-    rep.check(assigns.get('parser.consts') == 'dict(cached_consts)' and assigns.get('parser.macros') == 'dict(cached_macros)', 'C13.CACHE-ALIAS',
+    assign_nodes = {norm(s.targets[0]): s.value for s in rs.body if isinstance(s, ast.Assign)}
+    assigns = {k: norm(v) for k, v in assign_nodes.items()}
+    rep.check(fresh_copy_of(assign_nodes.get('parser.consts', ast.Constant(0))) == 'cached_consts'
+              and fresh_copy_of(assign_nodes.get('parser.macros', ast.Constant(0))) == 'cached_macros', 'C13.CACHE-ALIAS',
               'restore:containers', str({k: v for k, v in assigns.items() if k.startswith('parser.') and '[' not in k}), f'{PARSER}:{rs.lineno}')
+    mn = assign_nodes.get('parser.macros[INITIAL_MACRO_NAME]')
     main = assigns.get('parser.macros[INITIAL_MACRO_NAME]', '')
-    rep.check(main == 'Macro(list(cached_main_macro.params), list(cached_main_macro.local_params), list(cached_main_ops), cached_main_macro.namespace, '
-              'cached_main_macro.code_position)', 'C13.CACHE-ALIAS', 'restore:main-macro', main, f'{PARSER}:{rs.lineno}',
-              expected='a new Macro with list(cached_main_ops) - not the cached Macro\'s own (polluted) list')
+    ok_main = (isinstance(mn, ast.Call) and dotted(mn.func) == 'Macro' and len(mn.args) >= 3
+               and [fresh_copy_of(a) for a in mn.args[:3]] == ['cached_main_macro.params', 'cached_main_macro.local_params', 'cached_main_ops'])
+    rep.check(ok_main, 'C13.CACHE-ALIAS', 'restore:main-macro', main, f'{PARSER}:{rs.lineno}',
+              expected='a new Macro with a fresh copy of cached_main_ops - not the cached Macro\'s own (polluted) list')
     pf = repo.func(PARSER, '_parse_files_into_parser')
     snap = [n for n in walk_no_nested(pf) if isinstance(n, ast.If) and any(isinstance(c, ast.Call) and dotted(c.func) == '_snapshot_parser_to_cache' for c in ast.walk(n))]
     rep.check(len(snap) == 1 and norm(snap[0].test) == 'cache_key is not None and file_index == prefix_length - 1', 'C13.CACHE-ALIAS', 'snapshot point',
